@@ -234,6 +234,11 @@ def djBuild (e : Expr) : Outcome OTree :=
   | .notImplemented => .notImplemented
   | .foreign c => .foreign c
 
+/-- `isinstance(substr, ast.String) and any(c in substr.val for c in "%_/")`  (common.py `_substr_function`) -/
+def litNeedsEscape : Expr → Bool
+  | .lit .str v => v.any (fun c => c == '%' || c == '_' || c == '/')
+  | _ => false
+
 /-! ### SQLAlchemy (the visitors shared by ORM and Core, on a single table / model) -/
 section
 variable (fields : List Str)        -- the column names of the root model / table
@@ -304,7 +309,8 @@ def saFunc (key : String) (args : Exprs) : Outcome (OTree × OKind) :=
         substrTypecheck a b
         let (x, _) ← saVisit a
         let (y, _) ← saVisit b
-        pure (on2 name x y, .cond)
+        -- a literal substring with a LIKE wildcard is passed with `autoescape=True`
+        pure (on2 (if litNeedsEscape b then name ++ "_autoescape" else name) x y, .cond)
     | _ => .foreign "TypeError"
   match key with
   | "contains" => like "contains"
